@@ -289,6 +289,9 @@ func (w *Worker) runPath(h Harness, fn *ssa.Function, cfg Config, prefix []Trail
 			for _, o := range r.observes {
 				s.Observed = append(s.Observed, o.key+"="+obsString(o.term, m))
 			}
+			if r.fs != nil && r.fs.crashPlan != nil {
+				s.Extra = map[string]any{"crashPlan": r.fs.crashPlan}
+			}
 			res.Sample = s
 		}
 	}
